@@ -146,15 +146,19 @@ func VerifC21Closure() {
 	a := &verifVar{name: "a", val: "a0", log: &log}
 	exit := vrt.Choice("exit", 5)
 	d1fails, d2fails := vrt.Bool("d1 fails"), vrt.Bool("d2 fails")
+	// the deferred callbacks are real closures, as `defer { ... }` creates them:
+	// calling one re-points the frame's defer list, which runDefers must survive
 	mkDefer := func(name string, fails bool) func(fm *Frame) Exception {
 		return func(fm *Frame) Exception {
-			err := deferFn(fm, verifFn{func(*Frame) error {
-				log = append(log, name)
-				if fails {
-					return &exception{errVerifDefer, nil}
-				}
-				return nil
-			}})
+			cb := &Closure{RestArg: -1, Src: parse.Source{Name: "[defer]", Code: "0123456789"}, captured: &Ns{},
+				op: verifClosureBody{[]func(fm *Frame) Exception{func(*Frame) Exception {
+					log = append(log, name)
+					if fails {
+						return &exception{errVerifDefer, nil}
+					}
+					return nil
+				}}}}
+			err := deferFn(fm, cb)
 			if err != nil {
 				return &exception{err, nil}
 			}
